@@ -29,6 +29,9 @@ type c17Cfg struct {
 	// Follow: history — after the stalled call has returned, the same Client is used once more while the server
 	// stays silent: 1 Reset, 2 Send, 3 Close. That call must be bounded as well.
 	Follow int `json:"follow,omitempty"`
+	// Fallback (TLS=starttls only): the Client uses WithTLSPortPolicy(opportunistic), the dial to the primary port is
+	// refused and the stalls hit the connection to the fallback port
+	Fallback bool `json:"fallback,omitempty"`
 }
 
 type c17Case struct {
@@ -85,8 +88,14 @@ func c17Exec(r *vf.Run, cfg c17Cfg, c *vf.Chooser) (keys, whats []string) {
 		}
 		return def
 	}
-	rig := &hx.Rig{Mk: func(n int) *refsmtp.Conn {
-		if n > 0 {
+	dialNo := 0
+	rig := &hx.Rig{Mk: func(int) *refsmtp.Conn {
+		n := dialNo
+		dialNo++
+		if cfg.Fallback {
+			n-- // primary port refused
+		}
+		if n != 0 {
 			return nil
 		}
 		return conn
@@ -100,7 +109,11 @@ func c17Exec(r *vf.Run, cfg c17Cfg, c *vf.Chooser) (keys, whats []string) {
 	case 0:
 		opts = append(opts, mail.WithTLSPolicy(mail.NoTLS))
 	case 1:
-		opts = append(opts, mail.WithTLSPolicy(mail.TLSMandatory))
+		if cfg.Fallback {
+			opts = append(opts, mail.WithTLSPortPolicy(mail.TLSOpportunistic))
+		} else {
+			opts = append(opts, mail.WithTLSPolicy(mail.TLSMandatory))
+		}
 	case 2:
 		opts = append(opts, mail.WithSSL())
 	}
@@ -268,6 +281,9 @@ func c17Exec(r *vf.Run, cfg c17Cfg, c *vf.Chooser) (keys, whats []string) {
 	if cfg.Entry == 4 {
 		r.Outcome("reached/after-idle-hour")
 	}
+	if cfg.Fallback {
+		r.Outcome("reached/stall-on-the-fallback-connection")
+	}
 	if verdict == "bounded" && opErr == nil {
 		add(fmt.Sprintf("stall-reported-as-success/op=%s/stalled-after=%s", entry, after),
 			fmt.Sprintf("%s returned nil although the server stopped responding after %s", entry, b.After))
@@ -279,7 +295,7 @@ func init() {
 	vf.Register(&vf.Check{
 		ID: "C17", Title: "every network operation is bounded by the configured timeout",
 		Run: func(r *vf.Run) {
-			r.SetRule("one stall (server silent, connection open) at every command position of the dialogue — greeting, EHLO, STARTTLS, inside the TLS handshake, every AUTH step, NOOP, MAIL, each RCPT, DATA, mid-content (server stops reading), end-of-data, RSET, QUIT — × TLS mode {none, STARTTLS, implicit} × auth {none, PLAIN, LOGIN, SCRAM-SHA-256} × entry point {DialWithContext, DialAndSend, Send, Reset, Send after an idle hour} × caller context with/without own deadline × history {none, then Reset / Send / Close on the same Client while the server stays silent}; oracle is logical: whenever the client blocks on the silent peer a deadline must be armed on the connection and, on the connection's virtual clock (advanced by every wait the client sat through), end <= call start + timeout + 1.5 s — for EVERY wait of the call, so re-arming after a timeout and waiting again is seen; distinct by (configuration, stall position)")
+			r.SetRule("one stall (server silent, connection open) at every command position of the dialogue — greeting, EHLO, STARTTLS, inside the TLS handshake, every AUTH step, NOOP, MAIL, each RCPT, DATA, mid-content (server stops reading), end-of-data, RSET, QUIT — × TLS mode {none, STARTTLS, implicit} × auth {none, PLAIN, LOGIN, SCRAM-SHA-256} × entry point {DialWithContext, DialAndSend, Send, Reset, Send after an idle hour} × caller context with/without own deadline × (STARTTLS) the connection to the fallback port after the primary port refused × history {none, then Reset / Send / Close on the same Client while the server stays silent}; oracle is logical: whenever the client blocks on the silent peer a deadline must be armed on the connection and, on the connection's virtual clock (advanced by every wait the client sat through), end <= call start + timeout + 1.5 s — for EVERY wait of the call, so re-arming after a timeout and waiting again is seen; distinct by (configuration, stall position)")
 			r.Assume("net.Conn deadline semantics as documented (a blocked Read/Write returns at the armed deadline; with none armed it never returns)",
 				"the caller's context is not a bound: the property promises the configured timeout",
 				"idle time is simulated by skewing the connection's clock by one hour")
@@ -294,6 +310,9 @@ func init() {
 							cfgs = append(cfgs, c17Cfg{TLS: tlsm, Auth: a, Entry: e, CtxDL: cd})
 							if (e == 1 || e == 2 || e == 4) && a <= 1 && !cd {
 								cfgs = append(cfgs, c17Cfg{TLS: tlsm, Auth: a, Entry: e, Msgs: 3})
+							}
+							if tlsm == 1 && e <= 1 && !cd {
+								cfgs = append(cfgs, c17Cfg{TLS: tlsm, Auth: a, Entry: e, Fallback: true})
 							}
 							if !cd && (a <= 1 || r.Thorough) {
 								for f := 1; f <= 3; f++ {
@@ -343,7 +362,7 @@ func init() {
 					r.Reached(fmt.Sprintf("reached/stall/entry=%s/tls=%s", e, t))
 				}
 			}
-			r.Reached("reached/stall-inside-handshake", "reached/write-side-stall", "reached/caller-context-with-deadline", "reached/after-idle-hour", "follow/Reset/blocks=1", "follow/Send/blocks=1", "follow/Close/blocks=0")
+			r.Reached("reached/stall-inside-handshake", "reached/write-side-stall", "reached/caller-context-with-deadline", "reached/after-idle-hour", "reached/stall-on-the-fallback-connection", "follow/Reset/blocks=1", "follow/Send/blocks=1", "follow/Close/blocks=0")
 		},
 		Replay: func(r *vf.Run, kase json.RawMessage) {
 			var k c17Case
